@@ -67,7 +67,7 @@ def junk_text(rng):
 async def explore(tier, seed, m, v):
     rng = random.Random(seed * 31 + 18)
     stats = {"evaluations": 0, "nontrivial": set(), "problems": [], "disagreements": [], "raised": [], "kinds": {}, "samples": [], "coercer_calls_checked": 0}
-    nschemas, nper = (10, 120) if tier == "quick" else (120, 400)
+    nschemas, nper = (fw.scale(10), 120) if tier == "quick" else (fw.scale(120), 400)
     t0 = time.time()
     for si in range(nschemas):
         if time.time() - t0 > (100 if tier == "quick" else 1200): break
